@@ -302,7 +302,7 @@ inductive Res
   | err       -- returned an error: readIncoming ends, the node stops
   | stop      -- called n.Stop (connection closed locally) and returned
   | need      -- waiting for input
-  | wedge     -- blocked for ever on the handshake channel
+  | wedge     -- blocked for ever on a channel send (no handler produces it since fix 62ac204: C14_never_wedges)
   | panic     -- process abort
 deriving DecidableEq, Repr
 
